@@ -10,5 +10,8 @@ CONSTANTS
   MaxViews = 2
   Menu = "tags"
   Invalid = TRUE
+  Crashes = FALSE
+  Restarts = FALSE
+  Extra = {}
   MaxLen = 40
 INVARIANT Emit
